@@ -43,8 +43,12 @@ ConnVerdict(e) ==
      /\ elast'.chosen = NoObj => elast'.allowed = {}
   THEN {} ELSE {"ConnToUsable"}
 
+\* the relays that must be closed are taken from the harness' own bookkeeping of the real
+\* connections (e.open: <<id, backend>> of the client connections open before the step) and the
+\* model's membership: a real relay to an address that leaves the set in this step
 OpVerdict(e) ==
-  IF {c.id : c \in elast'.must} \subseteq SeqSet(e.closedsofar) THEN {} ELSE {"EstablishedClosed"}
+  IF {q[1] : q \in {x \in SeqSet(e.open) : x[2] \in Leaving}} \subseteq SeqSet(e.closedsofar)
+  THEN {} ELSE {"EstablishedClosed"}
 
 Note(v) == bad' = IF v = {} THEN bad ELSE Append(bad, [i |-> l, inv |-> v])
 
